@@ -81,10 +81,17 @@ func runScenario(idx int, sc *Scenario, first int) {
 			emit(fmt.Sprintf(`{"scen":%d,"sid":%s,"step":%d,%s}`, idx, strconv.Quote(sc.Sid), k, line))
 			stepStart.Store(time.Now().UnixNano()) // the watchdog limit is per emitted line
 		}
+		wantHooks := boolean(st, "hooks")
+		if wantHooks {
+			hooksStart()
+		}
 		lines := ctx.runStep(k, st)
 		stepStart.Store(0)
 		for _, line := range lines {
 			ctx.emitLine(line)
+		}
+		if wantHooks {
+			ctx.emitLine(hooksLine())
 		}
 		stepStart.Store(0)
 		emit(fmt.Sprintf(`{"ev":"StepEnd","scen":%d,"step":%d}`, idx, k))
